@@ -264,6 +264,25 @@ PROPS = {
         "assumptions": ["RSA key types are verify-side only in this framework and not driven here; BLS12-381 is C17",
                         "AES-CBC+HMAC key types are not creatable through kms.Create and are not driven"],
     },
+    "C16": {
+        "lean_files": ["AriesVerif/C16/Model.lean", "AriesVerif/C16/Props.lean", "AriesVerif/C16/Drv.lean"],
+        "lake_targets": ["AriesVerif"],
+        "classify": lambda inp, out: ["kind:" + inp.split("|")[0], "flags:" + inp.split("|")[1], "out:" + out.split("|")[0][:12],
+                                      "size:" + ("S" if len(inp) < 600 else "M" if len(inp) < 2000 else "L")],
+        "nontrivial": lambda inp, out: out.startswith("ok|") or "back=same" in out,
+        "thorough_seeds": 2,
+        "rule": "generated credentials (every optional member, one-value vs array forms, string vs object issuer and subject, "
+                "inline contexts, custom members at every level with nested values, null, empty arrays/objects, non-integer and "
+                "very large numbers), presentations with 0-2 embedded credentials, DID documents (three key encodings, relative "
+                "and absolute ids, embedded vs referenced relationships, three service endpoint shapes, custom service members), "
+                "credentials through the JWT form (minimised and full), key identifiers (did:key / fingerprint / vdr key / JWK) "
+                "for six key types; validation on and off; 4% of the documents carry a member whose name equals a known one up "
+                "to case; non-trivial = a document went through parse / serialize / parse / serialize; distinct (shape, outcome)",
+        "trusted_base": ["Lean.Json as the reader of both texts (numbers exact)", "JSON-LD / JSON-schema validators of the "
+                         "framework when validation is on (a refusal is not judged)"],
+        "assumptions": ["member names are distinct within an object", "JWT dates are whole seconds in UTC (NumericDate)",
+                        "an X25519 did:key is not resolvable by vdr/key (modelled as such)"],
+    },
     "C14": {
         "lean_files": ["AriesVerif/C14/Model.lean", "AriesVerif/C14/Props.lean", "AriesVerif/C14/Drv.lean"],
         "lake_targets": ["AriesVerif"],
